@@ -28,7 +28,7 @@ static CaseResult run(const RunCtx &ctx, const Tape &tape, Tape &canon) {
 static const char *rule(const std::string &prop) {
     if (prop == "C11")
         return "cases: duplicate-heavy generated sorted arrays (runs of length 2, eps, eps+1, 2eps..2eps+3, 4eps, 2^k+-1, >> eps; runs ending at n) over "
-               "{u16,i16,u32,i32,u64,i64} x 6 (Epsilon in {1,4,8,128}, EpsilonRecursive in {0,4}) MappedPGMIndex configurations, 3/4 built from an iterator "
+               "{u16,i16,u32,i32,u64,i64} x 6 (Epsilon in {1,4,8,128}, EpsilonRecursive in {0,4}, Floating in {float,double}) MappedPGMIndex configurations, 3/4 built from an iterator "
                "range and 1/4 from a raw key file; queries = keys, +-1, gap mid-points, boundaries, far values. oracle: std::lower_bound / upper_bound / "
                "count / binary_search, begin()..end() equals the data, size(). non-trivial: a queried run longer than 2eps+2 and a query outside "
                "[front, back]; distinct by canonical tape hash";
